@@ -39,6 +39,18 @@ theorem fromUncompressed_canonical (dflt : ν) (d : Nat) (n : Nest ν (d + 1)) :
     rw [fromUncompressed_of_none h]
     exact ⟨⟨sorted_nil, fun e he => by cases he⟩, rfl⟩
 
+/-- … and these three facts determine the result: ANY tree that is sorted, stores no empty
+    element and has the nest's non-default entries as content IS the model's tree.  (So
+    evaluating the specification on the implementation's tree and comparing that tree with
+    the model's are the same test.) -/
+theorem fromUncompressed_complete (dflt : ν) (d : Nat) (n : Nest ν (d + 1)) (t : Tree Nat ν (d + 1))
+    (hw : WF (d + 1) t) (hn : noEmptyB dflt (d + 1) t = true)
+    (hc : content dflt (d + 1) t = nestContent dflt (d + 1) n) :
+    t = fromUncompressed dflt d n := by
+  obtain ⟨hw', hn'⟩ := fromUncompressed_canonical dflt d n
+  exact canonical_unique dflt (d + 1) t (fromUncompressed dflt d n) hw hw' hn hn'
+    (hc.trans (fromUncompressed_content dflt d n).symm)
+
 /-- The result is empty exactly for the all-default nests. -/
 theorem fromUncompressed_empty_iff (dflt : ν) (d : Nat) (n : Nest ν (d + 1)) :
     asList (fromUncompressed dflt d n) = [] ↔ allDefault dflt (d + 1) n = true := by
@@ -524,6 +536,10 @@ example : content (0 : Int) 2 (fromUncompressed 0 1 exNest) = [([0, 0], 1)] := b
   rw [fromUncompressed_content]; decide
 example : content (7 : Int) 1 (fromUncompressed 7 0 exLeaf) = [([1], 0), ([2], 1)] := by
   rw [fromUncompressed_content]; decide
+-- completeness: a hand-written tree satisfying the three facts
+def exTreeN : Tree Nat Int 2 := ([(0, ([(0, (1 : Int))] : List (Nat × Int)))] : List (Nat × List (Nat × Int)))
+example : exTreeN = fromUncompressed 0 1 exNest :=
+  fromUncompressed_complete 0 1 exNest exTreeN ((wfB_iff 2 exTreeN).1 (by decide)) (by decide) (by decide)
 -- shape theorems: rectangular, positive dimensions, (not) all default
 example : rectB 2 [2, 2] exNest = true ∧ (∀ k ∈ [2, 2], 0 < k) ∧ allDefault (0 : Int) 2 exNest = false :=
   ⟨by decide, by decide, by decide⟩
